@@ -205,17 +205,19 @@ def rand_case(rng):
     n = rng.randint(5, 40)
     ops = []
     bursty = rng.random() < 0.5
+    total = 0          # the model's cost per call is linear in write_buf: keep a run below ~40 KB of items
     while len(ops) < n:
         r = rng.random()
         if r < (0.55 if bursty else 0.35):
             if codec == "lp":
                 size = rng.choice([0, 1, 2, 100, 253, 254, 254, 254, 255, 256, 300])
-                reps = rng.choice([1, 1, 1, 5, 33]) if size == 254 else 1
+                reps = rng.choice([1, 1, 1, 5, 33]) if size == 254 and total < 20000 else 1
             else:
-                size = rng.choice(SIZES)
+                size = rng.choice(SIZES if total < 32000 else SIZES[:7])
                 reps = 1
             for _ in range(reps):
                 ops.append("s%dx%d" % (size, rng.randint(0, 25)))
+                total += size
         elif r < 0.7:
             ops.append("r")
         elif r < 0.9:
@@ -300,13 +302,13 @@ def streams(ctx):
             for s in SS_SCRIPTS:
                 enum.append("bytes;%s;%s;%s;s5x0,c,c,f,s8192x1,r,r,c,c" % (w, f, s))
     s1 = Stream("c14enum", "c14", enum, monitor=monitor, nontrivial=nontrivial, shrink=shrink, finding_key=finding_key,
-                to_coq=to_coq, coq_imports="From AN Require Import Model.Lines Model.Framed.", timeout=1500,
+                to_coq=to_coq, coq_imports="From AN Require Import Model.Lines Model.Framed.", timeout=300 if quick else 1500,
                 describe="every sequence of <= N Sink calls over {r,f,c,small item, item filling to HW exactly, item of HW} x sampled "
                          "transport scripts; plan (codec, N, scripts per sequence) = %s; %d cases" % (plan, len(enum)))
     nr = 4000 if quick else 150000
     rnd = [rand_case(rng) for _ in range(nr)]
     s2 = Stream("c14rand", "c14", rnd, monitor=monitor, nontrivial=nontrivial, shrink=shrink, finding_key=finding_key,
-                timeout=1500,
+                timeout=300 if quick else 1500,
                 describe="%d random runs of 5..40 Sink calls, item sizes from %s (lp: 0..300 incl. refused ones and bursts of 33 x 254), "
                          "write answers a<k> with k from %s / Pending / zero / error, random flush and shutdown answers"
                          % (nr, SIZES, ACCEPTS))
